@@ -336,6 +336,13 @@ def _set_week(pendulum, ws, plain_int=None):
     else:
         pendulum.week_starts_at(pendulum.WeekDay(ws))
         pendulum.week_ends_at(pendulum.WeekDay((ws + 6) % 7))
+    # a REJECTED setting (out of range: ValueError) leaves the accepted one in force
+    for bad in (7, -1):
+        for setter in (pendulum.week_starts_at, pendulum.week_ends_at):
+            try:
+                setter(bad)
+            except ValueError:
+                pass
     import calendar as _calendar
     _calendar.setfirstweekday(int(ws))     # the stdlib's own process-wide first weekday travels with it
 
